@@ -131,6 +131,23 @@ func (m *Model) RunTokPos(s *Sink, rule string) {
 		"line": {readChar}, "col": {readChar}, "prevLine": {readChar}, "prevCol": {readChar}, "pos": {readChar}, "readPos": {readChar}, "char": {readChar}, "shouldResetCol": {readChar},
 		"startLine": {tokBegins}, "startCol": {tokBegins},
 	}
+	byName := true
+	if lexT := m.namedType("lexer", "Lexer"); lexT != nil {
+		have := map[string]bool{}
+		st := lexT.Underlying().(*types.Struct)
+		for i := 0; i < st.NumFields(); i++ {
+			have[canonFieldName(lexT, i, st.Field(i).Name())] = true
+		}
+		for _, n := range []string{"line", "col", "prevLine", "prevCol", "startLine", "startCol"} {
+			if !have[n] {
+				byName = false
+			}
+		}
+	}
+	if !byName {
+		m.tokposOwnersGeneral(s, rule, readChar, tokBegins, newFn)
+		owner = map[string][]*ssa.Function{}
+	}
 	writers := map[string]map[*ssa.Function]string{}
 	for _, fn := range m.ModFns {
 		if fn.Blocks == nil || isUserPkg(fnPkgPath(fn)) {
@@ -205,6 +222,13 @@ func (m *Model) RunTokPos(s *Sink, rule string) {
 			}
 		}
 		switch {
+		case v == nil && !byName && m.tokposGeometry(newTok).decided:
+			g := m.tokposGeometry(newTok)
+			if g.bad["StartLine"] == "" && g.bad["EndLine"] == "" {
+				s.OK(rule, key, m.Pos(readChar.Pos()), "case evaluation on real lexer states over inputs with \\n, \\r\\n and \\n\\n: the line of every token start and end is the number of line feeds before it")
+			} else {
+				s.Violation(rule, key, m.Pos(readChar.Pos()), "%s%s: lines are not counted by line feeds, so every later token and error carries a wrong line", g.bad["StartLine"], g.bad["EndLine"])
+			}
 		case v == nil:
 			s.Undecided(rule, key, m.Pos(readChar.Pos()), "the store that arms the line advance (shouldResetCol) was not found in readChar")
 		case ok:
@@ -617,7 +641,9 @@ func (m *Model) newTokenCases(s *Sink, rule string, fn *ssa.Function) bool {
 	for _, n := range []string{"col", "line", "prevCol", "prevLine", "startCol", "startLine"} {
 		ctr[n] = fieldIdx(lexT, n)
 		if ctr[n] < 0 {
-			return false
+			// the counters are kept some other way (grouped into a struct, behind a helper type with methods):
+			// decided on real lexer states instead
+			return m.newTokenGeometry(s, rule, fn)
 		}
 	}
 	fPos := fieldIdx(tokT, "Pos")
@@ -888,4 +914,337 @@ func verdictIndexAny(fn *ssa.Function) int {
 		}
 	}
 	return -1
+}
+
+// tokposGeometry evaluates the lexer's own position bookkeeping — New, readChar, tokenBegins, newToken, whatever
+// helper types they use — on real lexer states: the lexer New leaves for an input, advanced by k1 reads, then
+// tokenBegins, then k2 more reads, then newToken for every token type. What the returned Position must be is a fact
+// about the input's geometry (line = line feeds before the byte, column = bytes since the last line feed), not about
+// how the counters are stored: start = the byte the lexer stood on at tokenBegins; end = the previous byte (the byte
+// last read) for every type but EOF, the current byte for EOF; for a token that has read nothing, the start itself
+// (then unread tokens are fine) or the byte before it (then every caller must have read). A carriage return does not
+// start a line; a line feed does.
+type tokposGeom struct {
+	done, decided bool
+	why           string
+	bad           map[string]string
+	unreadAtStart bool
+	scenarios     int
+}
+
+func (m *Model) tokposGeometry(fn *ssa.Function) *tokposGeom {
+	if m.tokposGeom != nil {
+		return m.tokposGeom
+	}
+	g := &tokposGeom{bad: map[string]string{}}
+	m.tokposGeom = g
+	tokT, posT := m.namedType("token", "Token"), m.namedType("token", "Position")
+	rc, tb := m.Method("lexer", "Lexer", "readChar"), m.Method("lexer", "Lexer", "tokenBegins")
+	if tokT == nil || posT == nil || rc == nil || tb == nil || len(fn.Params) != 3 {
+		g.why = "token.Token / token.Position / readChar / tokenBegins not found"
+		return g
+	}
+	fieldIdx := func(t *types.Named, name string) int {
+		st := t.Underlying().(*types.Struct)
+		for i := 0; i < st.NumFields(); i++ {
+			if canonFieldName(t, i, st.Field(i).Name()) == name {
+				return i
+			}
+		}
+		return -1
+	}
+	fPos := fieldIdx(tokT, "Pos")
+	pf := map[string]int{}
+	for _, n := range []string{"StartCol", "StartLine", "EndCol", "EndLine"} {
+		pf[n] = fieldIdx(posT, n)
+		if pf[n] < 0 || fPos < 0 {
+			g.why = "fields of token.Token / token.Position not found"
+			return g
+		}
+	}
+	eofVal := int64(-1)
+	var tokVals []int64
+	for v, n := range tokenConstNames {
+		if n == "EOF" {
+			eofVal = v
+		}
+		tokVals = append(tokVals, v)
+	}
+	sort.Slice(tokVals, func(i, j int) bool { return tokVals[i] < tokVals[j] })
+	if eofVal < 0 {
+		g.why = "token.EOF not found"
+		return g
+	}
+	geom := func(in string, i int) (line, col int64) {
+		for k := 0; k < i && k < len(in); k++ {
+			if in[k] == '\n' {
+				line++
+				col = 0
+			} else {
+				col++
+			}
+		}
+		if i > len(in) {
+			col += int64(i - len(in))
+		}
+		return
+	}
+	run := func(in string, k1, k2 int, tok int64) (map[string]int64, string) {
+		lx, ok := m.lexerAt(in, k1)
+		if !ok {
+			return nil, "lexer.New / readChar could not be evaluated"
+		}
+		ip := &Interp{m: m, useGlobals: true}
+		if ip.Run(tb, []any{lx}); ip.stuck != "" || len(ip.lost) > 0 {
+			return nil, "tokenBegins could not be evaluated: " + ip.stuck
+		}
+		for i := 0; i < k2; i++ {
+			ip2 := &Interp{m: m, useGlobals: true}
+			if ip2.Run(rc, []any{lx}); ip2.stuck != "" || len(ip2.lost) > 0 {
+				return nil, "readChar could not be evaluated: " + ip2.stuck
+			}
+		}
+		ip3 := &Interp{m: m, useGlobals: true}
+		res, okR := ip3.Run(fn, []any{lx, constant.MakeInt64(tok), constant.MakeString("x")})
+		t, isT := res.(*iStruct)
+		if !okR || !isT || ip3.stuck != "" || len(ip3.lost) > 0 {
+			return nil, "newToken could not be evaluated: " + ip3.stuck
+		}
+		pv, isP := t.fields[fPos].(*iStruct)
+		if !isP {
+			return nil, "the token's position is not known"
+		}
+		out := map[string]int64{}
+		for n, i := range pf {
+			c, isC := pv.fields[i].(constant.Value)
+			if !isC {
+				return nil, "Position." + n + " is not known"
+			}
+			out[n], _ = constant.Int64Val(c)
+		}
+		return out, ""
+	}
+	type scen struct {
+		in     string
+		k1, k2 int
+	}
+	scens := []scen{
+		{"ab\ncd\nef", 1, 5}, // start (0,1); previous byte the line feed at (1,2); current byte (2,0): six different numbers
+		{"a\r\nb", 0, 3},     // a carriage return does not start a line
+		{"a\r\nb", 1, 1},
+		{"ab", 0, 2}, // the current position is just past the last byte
+		{"ab\n", 0, 3},
+		{"x\n\ny", 0, 3},
+		{"abc", 1, 1},
+	}
+	other := tokVals[0]
+	if other == eofVal {
+		other = tokVals[1]
+	}
+	for _, sc := range scens {
+		toks := []int64{other, eofVal}
+		if sc.in == "ab\ncd\nef" {
+			toks = tokVals // every token type on the scenario with six different numbers
+		}
+		for _, tv := range toks {
+			got, why := run(sc.in, sc.k1, sc.k2, tv)
+			if why != "" {
+				g.why = fmt.Sprintf("%q after %d reads, tokenBegins, %d reads: %s", sc.in, sc.k1, sc.k2, why)
+				return g
+			}
+			g.scenarios++
+			sl, scol := geom(sc.in, sc.k1)
+			endIdx := sc.k1 + sc.k2 - 1
+			what := "a token that has read its characters"
+			if tv == eofVal {
+				endIdx = sc.k1 + sc.k2
+				what = "EOF"
+			}
+			el, ec := geom(sc.in, endIdx)
+			want := map[string]int64{"StartLine": sl, "StartCol": scol, "EndLine": el, "EndCol": ec}
+			for f, w := range want {
+				if got[f] != w && g.bad[f] == "" {
+					g.bad[f] = fmt.Sprintf("on the input %q — %d reads, tokenBegins, %d more reads — Position.%s of %s (%s) is %d, expected %d", sc.in, sc.k1, sc.k2, f, what, tokenConstNames[tv], got[f], w)
+				}
+			}
+		}
+	}
+	// a token that has read nothing
+	for _, sc := range []scen{{"ab\ncd", 4, 0}, {"abc", 2, 0}} {
+		got, why := run(sc.in, sc.k1, sc.k2, other)
+		if why != "" {
+			g.why = fmt.Sprintf("%q after %d reads and tokenBegins: %s", sc.in, sc.k1, why)
+			return g
+		}
+		g.scenarios++
+		sl, scol := geom(sc.in, sc.k1)
+		pl, pc := geom(sc.in, sc.k1-1)
+		switch {
+		case got["EndLine"] == sl && got["EndCol"] == scol:
+			g.unreadAtStart = true
+		case got["EndLine"] == pl && got["EndCol"] == pc:
+		default:
+			if g.bad["EndCol"] == "" {
+				g.bad["EndCol"] = fmt.Sprintf("on the input %q, for a token that begins after %d reads and has read nothing, the end is (%d, %d): neither the current nor the previous byte", sc.in, sc.k1, got["EndLine"], got["EndCol"])
+			}
+		}
+		if got["StartLine"] != sl || got["StartCol"] != scol {
+			if g.bad["StartCol"] == "" {
+				g.bad["StartCol"] = fmt.Sprintf("on the input %q, for a token that begins after %d reads, the start is (%d, %d), expected (%d, %d)", sc.in, sc.k1, got["StartLine"], got["StartCol"], sl, scol)
+			}
+		}
+	}
+	g.decided = true
+	return g
+}
+
+func (m *Model) newTokenGeometry(s *Sink, rule string, fn *ssa.Function) bool {
+	g := m.tokposGeometry(fn)
+	if !g.decided {
+		for _, f := range []string{"EndCol", "EndLine", "StartCol", "StartLine"} {
+			s.Undecided(rule, fnKey(fn)+"|Position."+f, m.Pos(fn.Pos()), "the position counters are not fields of the lexer under the names this rule knows, and the lexer's bookkeeping could not be evaluated on real lexer states (%s)", g.why)
+		}
+		return true
+	}
+	if g.unreadAtStart {
+		m.newTokenUnread = true
+	}
+	for _, f := range []string{"EndCol", "EndLine", "StartCol", "StartLine"} {
+		key := fnKey(fn) + "|Position." + f
+		if g.bad[f] != "" {
+			s.Violation(rule, key, m.Pos(fn.Pos()), "%s: the token's range is not that of its text, so errors about it name a wrong line and a cursor on it is not found", g.bad[f])
+		} else {
+			s.OK(rule, key, m.Pos(fn.Pos()), "case evaluation of New, readChar, tokenBegins and newToken on real lexer states (%d scenarios over 7 inputs, every token type on the one whose six line and column numbers differ): start = the byte at tokenBegins, end = the byte last read (the current one for EOF%s); a carriage return does not start a line", g.scenarios, map[bool]string{true: " and for a token that has read nothing", false: ""}[g.unreadAtStart])
+		}
+	}
+	return true
+}
+
+// tokposOwnersGeneral — clause (a) when the counters are not plain fields of the lexer: the position state is whatever
+// memory readChar, tokenBegins and their exclusive helpers (functions of the lexer package all of whose callers are
+// among them) store to, as (struct type, field) pairs — `cursor.col`, `tracker.start`, `Lexer.cur`. Every store to
+// such a pair lies in those functions or in the constructor and its exclusive helpers.
+func (m *Model) tokposOwnersGeneral(s *Sink, rule string, readChar, tokBegins, newFn *ssa.Function) {
+	var lexFns []*ssa.Function
+	for _, fn := range m.ModFns {
+		if fn.Blocks != nil && shortPkg(fnPkgPath(fn)) == "lexer" {
+			lexFns = append(lexFns, fn)
+		}
+	}
+	closure := func(roots ...*ssa.Function) map[*ssa.Function]bool {
+		set := map[*ssa.Function]bool{}
+		for _, r := range roots {
+			if r != nil {
+				set[r] = true
+			}
+		}
+		for changed := true; changed; {
+			changed = false
+			for _, f := range lexFns {
+				if set[f] {
+					continue
+				}
+				node := m.CG.Nodes[f]
+				if node == nil || len(node.In) == 0 {
+					continue
+				}
+				all := true
+				for _, e := range node.In {
+					if !set[e.Caller.Func] {
+						all = false
+					}
+				}
+				if all {
+					set[f] = true
+					changed = true
+				}
+			}
+		}
+		return set
+	}
+	type tf struct {
+		t *types.Named
+		i int
+	}
+	storesOf := func(set map[*ssa.Function]bool) map[tf]bool {
+		out := map[tf]bool{}
+		for f := range set {
+			for _, b := range f.Blocks {
+				for _, in := range b.Instrs {
+					st, ok := in.(*ssa.Store)
+					if !ok {
+						continue
+					}
+					if fa, isFA := st.Addr.(*ssa.FieldAddr); isFA && !localBase(fa) {
+						if nt, i, okA := fieldAccess(fa); okA && nt.Obj().Pkg() != nil && shortPkg(nt.Obj().Pkg().Path()) == "lexer" {
+							out[tf{nt, i}] = true
+						}
+					}
+				}
+			}
+		}
+		return out
+	}
+	readers, beginners, makers := closure(readChar), closure(tokBegins), closure(newFn)
+	state := storesOf(readers)
+	for k := range storesOf(beginners) {
+		state[k] = true
+	}
+	if len(state) < 4 {
+		s.Undecided(rule, "lexer|position state", "-", "readChar, tokenBegins and their helpers store to only %d fields: the position bookkeeping was not found", len(state))
+		return
+	}
+	var keys []tf
+	for k := range state {
+		keys = append(keys, k)
+	}
+	sort.Slice(keys, func(i, j int) bool {
+		if keys[i].t.Obj().Name() != keys[j].t.Obj().Name() {
+			return keys[i].t.Obj().Name() < keys[j].t.Obj().Name()
+		}
+		return keys[i].i < keys[j].i
+	})
+	for _, k := range keys {
+		name := k.t.Obj().Name() + "." + canonFieldName(k.t, k.i, k.t.Underlying().(*types.Struct).Field(k.i).Name())
+		key := "lexer." + name + "|written only by its owner"
+		bad := ""
+		for _, fn := range m.ModFns {
+			if fn.Blocks == nil || isUserPkg(fnPkgPath(fn)) || readers[fn] || beginners[fn] || makers[fn] {
+				continue
+			}
+			for _, b := range fn.Blocks {
+				for _, in := range b.Instrs {
+					st, ok := in.(*ssa.Store)
+					if !ok {
+						continue
+					}
+					if fa, isFA := st.Addr.(*ssa.FieldAddr); isFA && !localBase(fa) {
+						if nt, i, okA := fieldAccess(fa); okA && nt == k.t && i == k.i && bad == "" {
+							bad = fmt.Sprintf("%s at %s", fnKey(fn), m.InstrPos(st))
+						}
+					}
+				}
+			}
+		}
+		if bad != "" {
+			s.Violation(rule, key, bad[strings.LastIndex(bad, " ")+1:], "the position state %s is written by %s; it may only be written by readChar, tokenBegins, the constructor and their own helpers: a token built after such a write carries a wrong range", name, bad)
+		} else {
+			s.OK(rule, key, "-", "stored to only by readChar / tokenBegins / the constructor and their exclusive helpers")
+		}
+	}
+}
+
+// localBase: the field address is that of a variable of the function (a local copy, a composite literal being built),
+// not of the lexer's state.
+func localBase(fa *ssa.FieldAddr) bool {
+	var v ssa.Value = fa
+	for i := 0; i < 8; i++ {
+		x, ok := v.(*ssa.FieldAddr)
+		if !ok {
+			break
+		}
+		v = x.X
+	}
+	al, isAlloc := v.(*ssa.Alloc)
+	return isAlloc && !al.Heap
 }
